@@ -30,6 +30,9 @@ CHECKS = {
     "C08": ("other", "E3 cpsat2smt + E1 + closed clauses",
             "All-outcomes clause by solver: every CP-SAT model the layout engine builds is captured and translated to z3; `exists placement with two intersecting collision boxes` must be UNSAT, and user entities must be singleton variables at the program's tiles - a verdict for every placement the solver may return under any time budget. Post-solve stages (relays, wiring, emission) are checked on contract-conforming outcomes (real solve, first k solves UNKNOWN, z3-chosen adversarial placements accepted by the real CP-SAT) with closed paste clauses and the E1 reference check.",
             "captured CP-SAT model -> z3 (all solver outcomes) + closed paste clauses on solver-chosen outcomes"),
+    "C09": ("other", "E3 cpsat2smt + closed clauses + E1",
+            "All-outcomes clause by solver: in every captured CP-SAT model the user-placed entities are singleton-domain variables at exactly the tiles the generator's own interpreter predicts and no two collision boxes can intersect (z3 UNSAT). Per outcome (real solve, 3 UNKNOWN solves, pole options): the multiset of (prototype, top-left tile) of non-compiler entities equals the prediction (loops unrolled and calls expanded by the generator), static properties applied; entity conditions by E1 for all inputs.",
+            "captured CP-SAT model -> z3 (fixed variables, all outcomes) + closed multiset clause + SMT translation validation"),
     "C10": ("translation_validation", "E1 bp2smt twins",
             "Two blueprints of the same source (optimised / --no-optimize) produced by the real compiler are encoded side by side over shared input variables; z3 decides equality of every common named output and entity condition for all inputs, and of the end-of-step values for all K-step histories of stateful programs.",
             "SMT equivalence checking of two emitted blueprints (all inputs / bounded histories)"),
@@ -51,6 +54,9 @@ CHECKS = {
     "C17": ("translation_validation", "E1 bp2smt",
             "Library: each documented function of lib/math.facto, compiled through a one-line caller, equals its documented definition for ALL int32 arguments satisfying a no-overflow precondition written as a formula. Imports: generated import graphs on disk (chains, diamonds, cycles, sub-directories, decoy files) compiled from three working directories equal the pasted twin for all inputs.",
             "SMT translation validation against documented definitions under formula preconditions; import graphs enumerated"),
+    "C18": ("other", "closed clauses + E1 twins",
+            "Solver part: the build with --power-poles T is equivalent to the build without for all inputs (z3, twins). Closed clauses with game data on the emitted blueprint of the real solver outcome (and after 3 UNKNOWN solves): every electricity consumer intersects a supply area of a pole of type T, the poles of type T form one copper network, copper wires within reach of both ends, no stray pole without the option. Coverage is NOT decided for all solver outcomes (the trimming rule was not encoded).",
+            "SMT equivalence poles vs no poles + closed coverage/connectivity clauses on solver outcomes"),
     "C20": ("translation_validation", "E1 bp2smt + closed clauses",
             "At the anchor labelled with each unconsumed top-level name z3 decides that the result's own signal (every signal for bundles) equals the reference for all inputs; closed clauses: exactly one wired empty anchor per unconsumed name, none for consumed names, producer labelled with name and source line, inputs labelled with name and value.",
             "SMT translation validation keyed by every unconsumed name + closed label clauses"),
@@ -98,8 +104,8 @@ def main():
         },
         "engines": [
             {"name": "E1 bp2smt", "path": "/verif/vf", "serves_properties": sorted(CHECKS), "kind_free_text": "emitted blueprint JSON -> z3 QF_UFBV; inputs, histories, entity contents symbolic; reference from the generator's own AST"},
-            {"name": "E3 cpsat2smt", "path": "/verif/vf/cpsat2smt.py", "serves_properties": ["C08"], "kind_free_text": "CpModel protos captured at CpSolver.solve -> z3 LIA; all-outcomes queries; candidate outcomes pinned back into the real CP-SAT"},
-            {"name": "E2 pyast2smt / CrossHair", "path": "/verif/vf/pyast2smt.py", "serves_properties": ["C11"], "kind_free_text": "compiler kernels executed symbolically from their current source (AST -> z3) or by CrossHair on the real functions"},
+            {"name": "E3 cpsat2smt", "path": "/verif/vf/cpsat2smt.py", "serves_properties": ["C08", "C09"], "kind_free_text": "CpModel protos captured at CpSolver.solve -> z3 LIA; all-outcomes queries; candidate outcomes pinned back into the real CP-SAT"},
+            {"name": "E2 pyast2smt / CrossHair", "path": "/verif/vf/pyast2smt.py", "serves_properties": ["C05", "C11", "C16"], "kind_free_text": "compiler kernels executed symbolically from their current source (AST -> z3) or by CrossHair on the real functions"},
         ],
         "checks": checks,
         "not_applicable": na,
